@@ -33,9 +33,10 @@ Fixpoint has_variadic_tuple (v : val) : bool :=
   | VUnion k => existsb has_variadic_tuple k
   end.
 
+(* Any[unreachable] is only the derived element type of an empty SequenceValue / dict, not an Any of the type *)
 Fixpoint has_any (v : val) : bool :=
   match v with
-  | VLeaf (LAny _) => true
+  | VLeaf (LAny s) => negb (N.eqb s any_unreachable)
   | VLeaf _ => false
   | VNode _ k => existsb has_any k
   | VUnion k => existsb has_any k
@@ -58,8 +59,37 @@ Fixpoint has_newtype (v : val) : bool :=
   | VUnion k => existsb has_newtype k
   end.
 
+Definition is_annot (v : val) : bool := match v with VNode (TAnnot _) _ => true | _ => false end.
+Definition is_vunion (v : val) : bool := match v with VUnion _ => true | _ => false end.
+
+(* get_generic_bases(d, args)[d] returns the arguments themselves *)
+Definition gb_identity (ct : class_table) (d : N) (k : nat) : bool :=
+  match gb_args ct d d with
+  | Some gs => Nat.eqb (length gs) k && forallb (fun p => match snd p with GArg i => Nat.eqb i (fst p) | _ => false end)
+                                                (combine (seq 0 k) gs)
+  | None => false
+  end.
+
+(* the reflexive fragment (decidable).  Excluded on purpose, each with a replayed
+   counterexample in design.d/C04.md: GenericValue without arguments, Annotated
+   directly around Annotated or around a union, unions that are not flat. *)
+Fixpoint refl_ok (ct : class_table) (A : val) {struct A} : bool :=
+  match A with
+  | VLeaf (LKnown o) | VLeaf (LKnownTV o) => py_eq o o
+  | VLeaf (LTyped d _) => tassign ct d d
+  | VLeaf _ => true
+  | VNode (TAnnot _) [t] => negb (is_annot t) && negb (is_vunion t) && refl_ok ct t
+  | VNode (TSubclass _) [t] => refl_ok ct t
+  | VNode (TGeneric d) args =>
+      match args with [] => false | _ => true end && gb_identity ct d (length args) && forallb (refl_ok ct) args
+  | VNode (TSeq d flags) (a :: ms) =>
+      tassign ct d d && Nat.eqb (length flags) (length ms) && forallb (refl_ok ct) ms
+  | VUnion vs => forallb (fun b => negb (is_vunion b) && refl_ok ct b) vs
+  | _ => false
+  end.
+
 Definition c04_run (ct : class_table) (A B C : val) (pool : list obj) :=
   ((can_assign ct false A B, can_assign ct true A B, can_assign ct false A C, can_assign ct false A A, can_assign ct true A A),
    (map (member ct A) pool, map (member ct B) pool),
    (has_bare_generic A || has_bare_generic B, has_seq A && has_variadic_tuple B, has_any A || has_any B,
-    has_unsafe_literal B, has_variadic A || has_variadic B, has_newtype A)).
+    has_unsafe_literal B, has_variadic A || has_variadic B, has_newtype A, refl_ok ct A)).
